@@ -347,6 +347,28 @@ class ExtendedKalmanFilter:
                     extra = f"\nExtra: {extra_from_map}"
                 raise ModelConstructionError(f"Mismatched Calibration:{missing}{extra}")
 
+        # Same structural checks as the Python ExtendedKalmanFilter
+        if len(process_noise) != self.control_size:
+            raise ModelConstructionError(
+                f"Process noise of size {len(process_noise)} does not match Control of size {self.control_size}"
+            )
+        for key, value in process_noise.items():
+            if not isinstance(key, tuple) and value < 0.0:
+                raise ModelConstructionError(
+                    f"Negative process noise for {key}: {value}"
+                )
+        if set(sensor_models.keys()) != set(sensor_noises.keys()):
+            raise ModelConstructionError(
+                f"Mismatched sensor noise: sensors {sorted(sensor_models.keys())} noises {sorted(sensor_noises.keys())}"
+            )
+        for key, sensor_model_mapping in sensor_models.items():
+            readings = {str(reading) for reading in sensor_model_mapping.keys()}
+            noises = {str(reading) for reading in sensor_noises[key].keys()}
+            if readings != noises:
+                raise ModelConstructionError(
+                    f"Mismatched sensor noise for sensor {key}: readings {sorted(readings)} noises {sorted(noises)}"
+                )
+
         self._process_model = BasicBlock(
             statements=self._translate_process_model(state_model),
             indent=4,
@@ -840,6 +862,14 @@ def compile(symbolic_model, calibration_map=None, *, config=None):
 
     if calibration_map is None:
         calibration_map = {}
+
+    common.model_validation(
+        symbolic_model,
+        {},
+        {},
+        extra_validation=config.extra_validation,
+        calibration_map=calibration_map,
+    )
 
     args = _compile_argparse()
 
